@@ -24,6 +24,7 @@ type Scenario struct {
 	EOFWithData bool     `json:"eof_with_data,omitempty"`
 	TruncateAt  int      `json:"truncate_at"`
 	NoRef       bool     `json:"visitor_without_stringref,omitempty"`
+	ReaderKind  int      `json:"reader_kind,omitempty"` // simkit.AsReader
 }
 
 type Engine struct{}
@@ -115,6 +116,9 @@ func (Engine) Run(c *simkit.Choices, x *simkit.Ctx) *simkit.Violation {
 				}
 			}
 			sc.EOFWithData = c.Bool()
+			if c.N(3) == 0 {
+				sc.ReaderKind = 1 + c.N(simkit.NumReaderKinds-1)
+			}
 			st.Fault("short-read")
 			if sc.EOFWithData {
 				st.Fault("eof-with-data")
@@ -123,7 +127,7 @@ func (Engine) Run(c *simkit.Choices, x *simkit.Ctx) *simkit.Violation {
 			}
 		}
 		st.Eval(1)
-		st.Distinct(simkit.NewDigest().Bytes(data).Str(sc.Ctor).Int(sc.BufSize).Ints(sc.Reads).Int(b2i(sc.EOFWithData)).Sum())
+		st.Distinct(simkit.NewDigest().Bytes(data).Str(sc.Ctor).Int(sc.BufSize).Ints(sc.Reads).Int(b2i(sc.EOFWithData)).Int(sc.ReaderKind).Sum())
 		if v := runPlan(cd, f, sc, data, refs, noRef, doc, truncIn, x); v != nil {
 			return v
 		}
@@ -157,9 +161,9 @@ func runPlan(cd *common.Codec, f model.Format, sc *Scenario, data []byte, refs [
 		} else {
 			rd = &simkit.Reader{Data: buf, Sizes: sc.Reads, EOFWithData: sc.EOFWithData, Clock: &x.Clock}
 			if sc.NoRef {
-				dec = cd.NewDecoder(rd, sc.BufSize, simkit.NoRef{Visitor: t})
+				dec = cd.NewDecoder(simkit.AsReader(sc.ReaderKind, rd), sc.BufSize, simkit.NoRef{Visitor: t})
 			} else {
-				dec = cd.NewDecoder(rd, sc.BufSize, t)
+				dec = cd.NewDecoder(simkit.AsReader(sc.ReaderKind, rd), sc.BufSize, t)
 			}
 		}
 	}
